@@ -124,9 +124,11 @@ def _enc_item(prog, b, bb, t, self_arg, dest_arg, variant=None):
     return (ap[1], s, compact)
 
 
-def writer(prog, adt_path):
+def writer(prog, adt_path, lenient=False):
     """production of the Encode impl of adt_path:
-    struct -> ('seq', [(field path, symbol)...]) ; enum -> ('enum', {tag: (variant, [(field, symbol)])})"""
+    struct -> ('seq', [(field path, symbol)...]) ; enum -> ('enum', {tag: (variant, [(field, symbol)])})
+    lenient (user declarations, not the model types): variants the match does not write (`#[codec(skip)]`) are simply absent from the table, and an
+    enum with a single variant needs no match"""
     imp = impl_of(prog, ENC, adt_path)
     if imp is None:
         raise Unrecognised("no unique Encode impl for %s" % adt_path)
@@ -156,19 +158,26 @@ def writer(prog, adt_path):
     # enum
     sw = b.blocks[0]["term"]
     # the discriminant read may be preceded by nothing else
-    if sw["k"] != "switch":
+    if sw["k"] != "switch" and lenient and len(adt["variants"]) == 1:
+        arms_ = [(adt["variants"][0]["discr"], 0)]
+    elif sw["k"] != "switch":
         # zero-variant enums etc.
         raise Unrecognised("encode_to of enum %s does not start with a match on self" % adt_path)
-    d = b.operand_term(sw["discr"])
-    if not (d[0] == "discr" and unref(d[1]) == SELF):
-        raise Unrecognised("encode_to of enum %s switches on %s" % (adt_path, path_str(d)))
+    else:
+        arms_ = None
+    if arms_ is None:
+        d = b.operand_term(sw["discr"])
+        if not (d[0] == "discr" and unref(d[1]) == SELF):
+            raise Unrecognised("encode_to of enum %s switches on %s" % (adt_path, path_str(d)))
     table = {}
     by_discr = {int(v["discr"]): v for v in adt["variants"]}
-    for val, tgt in sw["arms"]:
+    for val, tgt in (arms_ if arms_ is not None else sw["arms"]):
         v = by_discr.get(int(val))
         if v is None:
             raise Unrecognised("switch arm %s has no variant" % val)
         calls, end = _linear_calls(b, tgt)
+        if not calls and lenient:
+            continue       # a variant that is not written at all
         if not calls:
             raise Unrecognised("arm %s writes nothing" % v["name"])
         bb0, t0 = calls[0]
@@ -194,8 +203,14 @@ def writer(prog, adt_path):
         if tagt[1] in table:
             raise Unrecognised("duplicate tag %d" % tagt[1])
         table[tagt[1]] = (v["name"], items, tag_ty)
-    if b.blocks[sw["otherwise"]]["term"]["k"] != "unreachable" and len(table) != len(adt["variants"]):
+    if arms_ is None and not lenient and b.blocks[sw["otherwise"]]["term"]["k"] != "unreachable" and len(table) != len(adt["variants"]):
         raise Unrecognised("match on self is not exhaustive")
+    if arms_ is None and lenient and b.blocks[sw["otherwise"]]["term"]["k"] != "unreachable":
+        # the fallback arm stands for the variants without an arm of their own: it must write nothing (skipped) -- or it is the last variant's arm
+        oc, _ = _linear_calls(b, sw["otherwise"])
+        missing = [v for v in adt["variants"] if v["name"] not in {x[0] for x in table.values()}]
+        if oc and len(missing) == 1:
+            raise Unrecognised("LAST-ARM")   # handled by the caller below
     return ("enum", table, prov, b)
 
 
